@@ -263,7 +263,7 @@ Definition case_w (V : variants) : case :=
   {| cV := V; cC := cfg0; cCap := 64; cYload := yl_w; cMatch := [([115]%N, [], mt_w)];
      cCalls := [ {| q_sys := [115]%N; q_pv := []; q_tree := tree1; q_render := [] |};
                  {| q_sys := [115]%N; q_pv := []; q_tree := tree2; q_render := [] |} ] |}.
-Definition pre_e62fc38 : variants := {| tag_after := false; rerender := false; empty_raises := false |}.
+Definition pre_e62fc38 : variants := {| tag_after := false; rerender := false; marker_compared := false; empty_raises := false |}.
 
 Theorem C12_refuted_e62fc38 :
   holds (case_w pre_e62fc38) (run_model (case_w pre_e62fc38)) =
